@@ -34,13 +34,13 @@ ASSUMPTIONS = ['whitespace inside a numeric literal or between a function name a
 
 
 def ulp_close(x, exact):
-    """x within 1 ulp of the correctly rounded double of the exact rational."""
+    """x is the correctly rounded double of the exact rational."""
     if not isnum(x):
         return False
     ref = exact.numerator / exact.denominator      # correctly rounded by int/int true division
-    if x == ref:
-        return True
-    return abs(x - ref) <= math.ulp(ref)
+    # a literal spells ONE number: the double nearest to it (a literal put together from separately rounded parts is one unit
+    # in the last place off for 43 of the 1000 literals d.dd)
+    return x == ref
 
 
 class Numbers(Sub):
@@ -88,8 +88,10 @@ class Numbers(Sub):
                 elif kind == 'pct' and form != '1+%s':
                     # n% spells n/100: the correctly rounded quotient (n*0.01 is one ulp off for 57%, 35%, ...)
                     ok = out[1] == want.numerator / want.denominator
+                elif form == '1+%s':
+                    ok = abs(out[1] - float(want)) <= 2 * math.ulp(float(want))      # one more rounding, of the sum
                 else:
-                    ok = ulp_close(out[1], want) or abs(out[1] - float(want)) <= 2 * math.ulp(float(want))
+                    ok = ulp_close(out[1], want)        # the literal itself (negated, summed with 0, times 1): the nearest double
             if not ok:
                 return fail('%r evaluates to %r, the literal spells %s' % (form % text, out, want), str(want), enc(out),
                             case=narrow)
